@@ -3,8 +3,6 @@ package c19
 import (
 	"fmt"
 	"math"
-	"strings"
-	"time"
 
 	"verif/internal/h"
 
@@ -127,35 +125,19 @@ func runGenModuli(c GenCase, rec *h.Rec) error {
 			rec.Class("known=genmoduli-hang(not executed)")
 			return nil
 		}
-		// not listed (any more): execute under a watchdog, at most twice per process (the goroutine cannot be stopped)
-		if leakedSpinners.Load() >= 2 {
-			return h.Failf(hangKey, "%s (not re-executed: two spinning goroutines already leaked in this process)", msg)
+		// not listed (any more): execute under the watchdog (watchdog_test.go)
+		var e error
+		pan, werr := guarded(rec, hangKey, msg, func() { _, _, e = rlwe.GenModuli(c.LogNthRoot, c.LogQ, c.LogP) })
+		if werr != nil {
+			return werr
 		}
-		done := make(chan error, 1)
-		go func() {
-			defer func() {
-				if r := recover(); r != nil {
-					done <- fmt.Errorf("panic: %v", r)
-				}
-			}()
-			_, _, e := rlwe.GenModuli(c.LogNthRoot, c.LogQ, c.LogP)
-			if e == nil {
-				e = fmt.Errorf("no error")
-			}
-			done <- e
-		}()
-		select {
-		case e := <-done:
-			if strings.HasPrefix(e.Error(), "panic: ") {
-				return h.Failf("C19:GenModuli:panic:huge-root-order", "GenModuli(%d, %v, %v): %v", c.LogNthRoot, c.LogQ, c.LogP, e)
-			}
-			rec.Class("outcome=huge-root-order-returned")
-			rec.NonTrivial(fmt.Sprintf("huge-root|root=%d", c.LogNthRoot))
-			return nil
-		case <-time.After(10 * time.Second):
-			leakedSpinners.Add(1)
-			return h.Failf(hangKey, "%s (no result after 10 s)", msg)
+		if pan != nil {
+			return h.Failf("C19:GenModuli:panic:huge-root-order", "GenModuli(%d, %v, %v): panic: %v", c.LogNthRoot, c.LogQ, c.LogP, pan)
 		}
+		_ = e // an error or a (possibly useless) chain: what matters here is that the call returned
+		rec.Class("outcome=huge-root-order-returned")
+		rec.NonTrivial(fmt.Sprintf("huge-root|root=%d", c.LogNthRoot))
+		return nil
 	}
 	badSize := false
 	for _, b := range c.LogQ {
